@@ -17,6 +17,38 @@ Definition state_fn (st : Z -> option Z) (n : Z) : option GenReplicationCode.sta
 Definition cur_fn (cur : option Model.state) : option GenReplicationCode.state * gerr :=
   match cur with Some c => (Some c, GNil) | None => (None, GNotFound) end.
 
+Lemma state_fn_eq : forall st n,
+  state_fn st n = match st n with Some ts => (Some (n, ts), GNil) | None => (None, GNotFound) end.
+Proof. reflexivity. Qed.
+
+(* SEMANTIC proofs.  The obligations do not depend on the shape of the generated bodies (order and
+   polarity of tests, switch vs if chains, collapsed error branches, helper functions such as a
+   "lookup that tolerates a 404", renamed locals): after one unfolding step of a loop both sides
+   are decision trees over  st n  (file present / missing) and the time comparisons; [crunch] splits
+   on whatever test is still in the goal, rewrites recursive calls with the induction hypothesis
+   passed as [rw], and closes the leaves up to associativity of the request trace. *)
+Ltac simp_code :=
+  cbn beta iota zeta;
+  cbn [gerr_is_nil gerr_not_found is_none negb andb orb fst snd option_map app] in *.
+
+Ltac finish := rewrite <- ?app_assoc, ?app_nil_r; cbn [app]; reflexivity.
+
+Ltac split_code st :=
+  match goal with
+  | |- context [st ?x] => destruct (st x) eqn:?
+  | |- context [Z.ltb ?a ?b] => destruct (Z.ltb a b) eqn:?
+  | |- context [match scan_down ?a ?b ?c ?d with _ => _ end] => destruct (scan_down a b c d) as [[? ?]|]
+  | |- context [match find_in_range ?a ?b ?c ?d ?e with _ => _ end] => destruct (find_in_range a b c d e) as [[? ?]|]
+  | |- context [match find_bound ?a ?b ?c ?d ?e with _ => _ end] => destruct (find_bound a b c d e) as [[[? ?] ?]|]
+  | |- context [option_map _ (find_in_range ?a ?b ?c ?d ?e)] => destruct (find_in_range a b c d e) as [[? ?]|]
+  | |- context [option_map _ (find_bound ?a ?b ?c ?d ?e)] => destruct (find_bound a b c d e) as [[[? ?] ?]|]
+  | |- context [match ?o with Some _ => _ | None => _ end] => is_var o; destruct o
+  end.
+
+Ltac crunch st rw :=
+  simp_code; autounfold with genhelpers; unfold fetch; rewrite ?state_fn_eq; simp_code; rw tt; simp_code;
+  first [finish | (split_code st; crunch st rw)].
+
 Section Ok.
 Variable st : Z -> option Z.
 Variables (fuel : nat) (C : option GenReplicationCode.state * gerr) (min t : Z).
@@ -24,27 +56,20 @@ Variables (fuel : nat) (C : option GenReplicationCode.state * gerr) (min t : Z).
 Notation RES2 := (option ((option GenReplicationCode.state * gerr) * list Z)).
 
 (* ---- findInRange, inner loop ---- *)
-Lemma loop2_found : forall (K : option GenReplicationCode.state -> Z -> list Z -> RES2) lowerID splitID upper fuel2 s sID tr,
-  gen_find_in_range_loop2 K fuel C (state_fn st) min lowerID splitID t upper fuel2 (Some s) sID tr = K (Some s) sID tr.
+Lemma loop2_found : forall (K : option GenReplicationCode.state -> Z -> list Z -> RES2) lowerID upper splitID fuel2 s sID tr,
+  gen_find_in_range_loop2 K fuel C (state_fn st) min lowerID upper t splitID fuel2 (Some s) sID tr = K (Some s) sID tr.
 Proof. intros. destruct fuel2; reflexivity. Qed.
 
-Lemma loop2_ok : forall (K' : option GenReplicationCode.state -> list Z -> RES2) lowerID splitID upper fuel2 sID tr,
-  gen_find_in_range_loop2 (fun sp _ tr0 => K' sp tr0) fuel C (state_fn st) min lowerID splitID t upper fuel2 None sID tr =
+Lemma loop2_ok : forall (K' : option GenReplicationCode.state -> list Z -> RES2) lowerID upper splitID fuel2 sID tr,
+  gen_find_in_range_loop2 (fun sp _ tr0 => K' sp tr0) fuel C (state_fn st) min lowerID upper t splitID fuel2 None sID tr =
   match scan_down st fuel2 lowerID sID with
   | None => None
   | Some (sp, tr') => K' sp (tr ++ tr')
   end.
 Proof.
-  intros K' lowerID splitID upper fuel2. induction fuel2 as [|f IH]; intros sID tr.
-  - cbn [gen_find_in_range_loop2 scan_down is_none andb].
-    destruct (lowerID <? sID); [reflexivity|]. rewrite app_nil_r. reflexivity.
-  - cbn [gen_find_in_range_loop2 scan_down is_none andb].
-    destruct (lowerID <? sID); [|rewrite app_nil_r; reflexivity].
-    unfold state_fn at 1. unfold fetch. destruct (st sID) as [ts|].
-    + cbn [gerr_is_nil gerr_not_found negb andb]. rewrite loop2_found. reflexivity.
-    + cbn [gerr_is_nil gerr_not_found negb andb]. rewrite IH.
-      destruct (scan_down st f lowerID (sID - 1)) as [[sp tr']|]; [|reflexivity].
-      rewrite <- app_assoc. reflexivity.
+  intros K' lowerID upper splitID fuel2. induction fuel2 as [|f IH]; intros sID tr;
+    cbn [gen_find_in_range_loop2 scan_down];
+    crunch st ltac:(fun _ => rewrite ?loop2_found, ?IH).
 Qed.
 
 (* ---- findInRange ---- *)
@@ -55,25 +80,9 @@ Lemma loop1_ok : forall (K' : option GenReplicationCode.state -> list Z -> RES2)
   | Some (s, tr') => K' (Some s) (tr ++ tr')
   end.
 Proof.
-  intros K' fuel1. induction fuel1 as [|f IH]; intros lowerID upper tr.
-  - cbn [gen_find_in_range_loop1 find_in_range].
-    destruct (lowerID + 1 <? fst upper); [reflexivity|]. rewrite app_nil_r. reflexivity.
-  - cbn [gen_find_in_range_loop1 find_in_range].
-    destruct (lowerID + 1 <? fst upper); [|rewrite app_nil_r; reflexivity].
-    cbv zeta.
-    rewrite (loop2_ok (fun sp tr0 =>
-               if match sp with None => true | Some s => snd s <? t end
-               then gen_find_in_range_loop1 (fun _ u tr1 => K' u tr1) fuel C (state_fn st) min t f ((lowerID + fst upper) / 2) (Some upper) tr0
-               else gen_find_in_range_loop1 (fun _ u tr1 => K' u tr1) fuel C (state_fn st) min t f lowerID sp tr0)).
-    destruct (scan_down st (S f) lowerID ((lowerID + fst upper) / 2)) as [[sp tr1]|]; [|reflexivity].
-    destruct sp as [s|].
-    + destruct (snd s <? t).
-      * rewrite IH. destruct (find_in_range st f ((lowerID + fst upper) / 2) upper t) as [[r tr']|]; [|reflexivity].
-        rewrite app_assoc. reflexivity.
-      * rewrite IH. destruct (find_in_range st f lowerID s t) as [[r tr']|]; [|reflexivity].
-        rewrite app_assoc. reflexivity.
-    + rewrite IH. destruct (find_in_range st f ((lowerID + fst upper) / 2) upper t) as [[r tr']|]; [|reflexivity].
-      rewrite app_assoc. reflexivity.
+  intros K' fuel1. induction fuel1 as [|f IH]; intros lowerID upper tr;
+    cbn [gen_find_in_range_loop1 find_in_range];
+    crunch st ltac:(fun _ => rewrite ?loop2_ok, ?IH).
 Qed.
 
 Lemma gen_find_in_range_ok : forall lowerID upper tr,
@@ -93,26 +102,15 @@ Lemma bound_loop_ok : forall fuel1 upper lowerID tr,
                        fuel C (state_fn st) min t fuel1 (Some upper) lowerID tr =
   option_map (fun r => ((Some (fst (fst r)), Some (snd (fst r)), GNil), tr ++ snd r)) (find_bound st fuel1 lowerID upper t).
 Proof.
-  intros fuel1. induction fuel1 as [|f IH]; intros upper lowerID tr.
-  - cbn [gen_find_bound_loop1 find_bound].
-    destruct (lowerID + 1 <? fst upper); [reflexivity|]. cbn [option_map fst snd]. rewrite app_nil_r. reflexivity.
-  - cbn [gen_find_bound_loop1 find_bound].
-    destruct (lowerID + 1 <? fst upper); [|cbn [option_map fst snd]; rewrite app_nil_r; reflexivity].
-    cbv zeta. unfold state_fn at 1. unfold fetch.
-    destruct (st ((lowerID + fst upper) / 2)) as [ts|].
-    + cbn [gerr_is_nil gerr_not_found negb andb is_none snd].
-      destruct (ts <? t); [reflexivity|].
-      rewrite IH. destruct (find_bound st f lowerID ((lowerID + fst upper) / 2, ts) t) as [[[l u] tr']|]; [|reflexivity].
-      cbn [option_map fst snd]. rewrite <- app_assoc. reflexivity.
-    + cbn [gerr_is_nil gerr_not_found negb andb is_none].
-      rewrite IH. destruct (find_bound st f ((lowerID + fst upper) / 2) upper t) as [[[l u] tr']|]; [|reflexivity].
-      cbn [option_map fst snd]. rewrite <- app_assoc. reflexivity.
+  intros fuel1. induction fuel1 as [|f IH]; intros upper lowerID tr;
+    cbn [gen_find_bound_loop1 find_bound];
+    crunch st ltac:(fun _ => rewrite ?IH).
 Qed.
 
 Lemma gen_find_bound_ok : forall upper tr,
   gen_find_bound fuel C (state_fn st) min (Some upper) t tr =
   option_map (fun r => ((Some (fst (fst r)), Some (snd (fst r)), GNil), tr ++ snd r)) (find_bound st fuel min upper t).
-Proof. intros upper tr. unfold gen_find_bound. apply bound_loop_ok. Qed.
+Proof. intros upper tr. unfold gen_find_bound. cbv zeta. apply bound_loop_ok. Qed.
 
 End Ok.
 
@@ -123,23 +121,9 @@ Definition embed (r : option (result * list Z)) : option ((option GenReplication
 Theorem gen_search_timestamp_ok : forall st fuel min cur t,
   gen_search_timestamp fuel (cur_fn cur) (state_fn st) min t [] = embed (search fuel st min cur t).
 Proof.
-  intros st fuel min cur t. unfold gen_search_timestamp, search.
-  destruct cur as [c|]; cbn [cur_fn gerr_not_found gerr_is_nil negb app]; [|reflexivity].
-  unfold search_from. destruct (snd c <? t); [reflexivity|].
-  unfold state_fn at 1. unfold fetch. destruct (st min) as [ts|].
-  - cbn [gerr_is_nil gerr_not_found negb andb is_none snd fst].
-    destruct (ts <? t); rewrite gen_find_in_range_ok.
-    + destruct (find_in_range st fuel min c t) as [[s tr']|]; reflexivity.
-    + destruct (find_in_range st fuel (min - 1) (min, ts) t) as [[s tr']|]; reflexivity.
-  - cbn [gerr_is_nil gerr_not_found negb andb is_none].
-    rewrite gen_find_bound_ok.
-    destruct (find_bound st fuel min c t) as [[[l u] tr1]|]; [|reflexivity].
-    cbn [option_map fst snd gerr_is_nil negb].
-    destruct (snd l <? t); rewrite gen_find_in_range_ok.
-    + destruct (find_in_range st fuel (fst l) u t) as [[s tr']|]; [|reflexivity].
-      cbn [option_map embed fst snd app]. rewrite <- ?app_assoc. reflexivity.
-    + destruct (find_in_range st fuel (min - 1) l t) as [[s tr']|]; [|reflexivity].
-      cbn [option_map embed fst snd app]. rewrite <- ?app_assoc. reflexivity.
+  intros st fuel min cur t. unfold gen_search_timestamp, search, search_from, embed.
+  destruct cur as [c|]; cbn [cur_fn];
+    crunch st ltac:(fun _ => rewrite ?gen_find_bound_ok, ?gen_find_in_range_ok).
 Qed.
 
 (* everything together *)
